@@ -32,7 +32,8 @@ RULE = ("to_chars: every value of int8/uint8 x every base 2..36 x every buffer l
         "to_integer with check_overflow = false: the limit texts and seeded random texts in bases 2,8,10,16,36 (thorough: "
         "all) for every type; for int/long/long long/wchar_t only those whose value is representable. "
         "strto*/sto*/ato*: every string of length <= 4 over {0,1,9,f,x,-,+,space} (strtol base 10 and base 0, strtoul "
-        "base 16, stoi/atoi base 10, stoul base 0 up to length 3; thorough: 4), the limit texts of each function's type in "
+        "base 16, stoi/atoi base 10, stoul base 0 and stol base 16 up to length 3; thorough: 4), texts that end in or right "
+        "behind a 0x prefix for every function in base 16 and 0 (sto*: exact-size heap views), the limit texts of each function's type in "
         "every base 2..36 (ato*: 10) with the decorations above plus '+' and '0x', seeded random digit strings in bases "
         "{2,8,10,16,36,random} with embedded NULs and 0x prefixes in base 16, and for base 0 (auto-detect; only "
         "strto*/sto* take it): hexadecimal (0x/0X), octal (0) and decimal renderings of the limits and limits+-1 with "
